@@ -549,6 +549,18 @@ func (w *World) basePrelude() []string {
 		"(declare-fun ibitor (Int Int) Int)",
 		"(declare-fun ishl (Int Int) Int)",
 		"(define-fun streq ((a String) (b String)) Bool (= a b))",
+		// x & 2^k for the nine method bits, by arithmetic (no bit-vectors)
+		"(assert (forall ((x Int)) (! (= (ibitand x 1) (ite (= (mod x 2) 1) 1 0)) :pattern ((ibitand x 1)))))",
+		"(assert (forall ((x Int)) (! (= (ibitand x 2) (ite (= (mod (div x 2) 2) 1) 2 0)) :pattern ((ibitand x 2)))))",
+		"(assert (forall ((x Int)) (! (= (ibitand x 4) (ite (= (mod (div x 4) 2) 1) 4 0)) :pattern ((ibitand x 4)))))",
+		"(assert (forall ((x Int)) (! (= (ibitand x 8) (ite (= (mod (div x 8) 2) 1) 8 0)) :pattern ((ibitand x 8)))))",
+		"(assert (forall ((x Int)) (! (= (ibitand x 16) (ite (= (mod (div x 16) 2) 1) 16 0)) :pattern ((ibitand x 16)))))",
+		"(assert (forall ((x Int)) (! (= (ibitand x 32) (ite (= (mod (div x 32) 2) 1) 32 0)) :pattern ((ibitand x 32)))))",
+		"(assert (forall ((x Int)) (! (= (ibitand x 64) (ite (= (mod (div x 64) 2) 1) 64 0)) :pattern ((ibitand x 64)))))",
+		"(assert (forall ((x Int)) (! (= (ibitand x 128) (ite (= (mod (div x 128) 2) 1) 128 0)) :pattern ((ibitand x 128)))))",
+		"(assert (forall ((x Int)) (! (= (ibitand x 256) (ite (= (mod (div x 256) 2) 1) 256 0)) :pattern ((ibitand x 256)))))",
+		"(assert (= (ishl 1 0) 1))", "(assert (= (ishl 1 1) 2))", "(assert (= (ishl 1 2) 4))", "(assert (= (ishl 1 3) 8))", "(assert (= (ishl 1 4) 16))",
+		"(assert (= (ishl 1 5) 32))", "(assert (= (ishl 1 6) 64))", "(assert (= (ishl 1 7) 128))", "(assert (= (ishl 1 8) 256))", "(assert (= (ishl 1 9) 512))",
 	}
 }
 
